@@ -68,7 +68,6 @@ def main():
             put(os.path.join(REPO, rel), "rw_" + rel.replace("/", "__"), s)
             rewritten.append(rel)
     notes["sync_import_rewritten_in"] = rewritten
-    put(os.path.join(REPO, "verifshim/vnetpoll/netpoll.go"), "vnetpoll.go")
     # 4. span allocator: atomic -> scheduling-point shim
     s = open(os.path.join(bd, "span/span.go")).read()
     if s.count('"sync/atomic"') != 1:
@@ -122,11 +121,16 @@ func VerifResetAll() {
         put(os.path.join(REPO, "container/strmap/zz_verif_knob.go"), "strmap_knob.go",
             "package strmap\n\n// VerifSetHash: the hook point for a harness-owned hash was not found in this tree.\nfunc VerifSetHash(t map[string]uint64, fn func(string) uint64) bool { return false }\n")
     if "--unsafex-go100" in sys.argv:
+        # C20's second variant: the pre-go1.21 implementation compiled in place of the go1.21 one.  If the tree no longer
+        # has the two files in this shape there is no second variant to check (exit 3, bin/check then skips it).
+        a, b = os.path.join(REPO, "unsafex/unsafex_go100.go"), os.path.join(REPO, "unsafex/unsafex_go121.go")
+        if not (os.path.exists(base.get(a, a)) and os.path.exists(base.get(b, b))):
+            sys.exit(3)
         s = read_repo("unsafex/unsafex_go100.go")
         s2 = re.sub(r'^//go:build[^\n]*\n', '', s, flags=re.M)
         s2 = re.sub(r'^// \+build[^\n]*\n', '', s2, flags=re.M)
         if s2 == s:
-            die("unsafex_go100.go: no build constraint found to strip")
+            sys.exit(3)
         put(os.path.join(REPO, "unsafex/unsafex_go121.go"), "rw_unsafex_go100.go", s2)
     json.dump({"Replace": rep}, open(os.path.join(out, "overlay.json"), "w"), indent=1)
     json.dump(notes, open(os.path.join(out, "notes.json"), "w"), indent=1)
